@@ -711,6 +711,9 @@ def execute(case, compare=True, stop_at_first=False):
                 comparable = compare
                 if o == 'asset_noarg':
                     exp_gid = ctx.tracked.get(call['asset'])
+                    if exp_gid is None and hasattr(H.byname[call['asset']], 'base_asset'):
+                        # a scaled asset that never saw a grid itself works on the grid of its base asset
+                        exp_gid = ctx.tracked.get(H.byname[call['asset']].base_asset.name)
                     if exp_gid == '?':
                         comparable = False
                         exp_gid = None
@@ -980,16 +983,15 @@ def describe(case):
 
 
 def classify(v):
-    """root-cause family of a violation (see notes/findings_history.md); 'other' = not yet explained"""
+    """'H3' = the one known, unrepaired deviation (see notes/findings_history.md): a split set-up restores the full grid for the
+    top-level assets only, the assets WRAPPED by a scaled / structured asset stay on the temporary grid of the last interval;
+    visible when such a wrapped asset is then set up directly without grid argument.  Everything else is 'other':
+    H1 (prices_to_grid, repaired by 669e5fd) and H2 (ScaledAsset without grid argument, repaired by 19afd7c) are no classes
+    any more - a recurrence must surface as a plain violation."""
     f = v['facts']
-    if f.get('prices_changed_before') and f.get('prices_form') in ('df_range',) and f['op'] in ('pf_split', 'io_optimize', 'pf_setup', 'asset_setup', 'asset_noarg', 'cost_samples'):
-        return 'H1-prices-frame-index-replaced'
-    if f['op'] == 'asset_noarg' and f.get('asset_type') == 'ScaledAsset':
-        return 'H2-scaled-asset-without-grid-argument'
-    if f['op'] == 'asset_noarg' and f.get('nested') and 'pf_split' in f.get('history_ops', []) + ['io_optimize' if 'io_optimize' in f.get('history_ops', []) else '']:
-        return 'H3-wrapped-asset-left-on-interval-grid-after-split'
-    if f['op'] == 'asset_noarg' and f.get('nested') and 'io_optimize' in f.get('history_ops', []):
-        return 'H3-wrapped-asset-left-on-interval-grid-after-split'
+    hist = f.get('history_ops', [])
+    if f['op'] == 'asset_noarg' and f.get('nested') and ('pf_split' in hist or 'io_optimize' in hist):
+        return 'H3'
     return 'other'
 
 
@@ -1028,19 +1030,47 @@ def witness_cases():
             'base': base([sca]), 'grids': [A], 'prices': [{'T': 4, 'form': 'dict', 'data': {'p0': p}}],
             'history': [{'op': 'set_timegrid', 'asset': 'sca1', 'grid': 0, 'reuse': True},
                         {'op': 'asset_noarg', 'asset': 'sca1', 'prices': 0}]},
+        'H2-scaled-asset-after-split': {
+            'base': base([sca, mkt]), 'grids': [A], 'prices': [{'T': 4, 'form': 'dict', 'data': {'p0': p}}],
+            'history': [{'op': 'pf_split', 'grid': 0, 'reuse': True, 'prices': 0, 'interval': '2h'},
+                        {'op': 'asset_noarg', 'asset': 'sca1', 'prices': 0}]},
         'H3-wrapped-asset-left-on-interval-grid-after-split': {
             'base': base([sca, mkt]), 'grids': [A], 'prices': [{'T': 4, 'form': 'dict', 'data': {'p0': p}}],
             'history': [{'op': 'pf_split', 'grid': 0, 'reuse': True, 'prices': 0, 'interval': '2h'},
                         {'op': 'asset_noarg', 'asset': 'sca1_b', 'prices': 0}]},
+        'H3-inner-asset-of-structured-after-split': {
+            'base': {'grid': A, 'nodes': ['N1', 'sa1_i1'], 'prices': {'p0': p}, 'assets': [
+                {'type': 'StructuredAsset', 'name': 'sa1', 'nodes': ['N1'], 'inner_nodes': ['sa1_i1'], 'args': {}, 'inner': [
+                    {'type': 'Transport', 'name': 'sa1_tr', 'nodes': ['sa1_i1', 'N1'], 'args': {'min_cap': 0.0, 'max_cap': 1.0}},
+                    {'type': 'SimpleContract', 'name': 'sa1_c', 'nodes': ['sa1_i1'], 'args': {'min_cap': -1.0, 'max_cap': 1.0, 'price': 'p0'}}]}, mkt]},
+            'grids': [A], 'prices': [{'T': 4, 'form': 'dict', 'data': {'p0': p}}],
+            'history': [{'op': 'pf_split', 'grid': 0, 'reuse': True, 'prices': 0, 'interval': '2h'},
+                        {'op': 'asset_noarg', 'asset': 'sa1_c', 'prices': 0}]},
     }
 
 
+# what the oracle must report on the pinned histories: None = nothing (repaired), 'H3' = the known finding
+WITNESS_EXPECT = {
+    'H1-prices-frame-index-replaced': None,                 # repaired by 669e5fd
+    'H1-prices-frame-index-replaced/raises': None,
+    'H2-scaled-asset-without-grid-argument': None,          # repaired by 19afd7c
+    'H2-scaled-asset-without-grid-argument/raises': None,
+    'H2-scaled-asset-after-split': None,                    # top-level call after a split: fine since 19afd7c
+    'H3-wrapped-asset-left-on-interval-grid-after-split': 'H3',
+    'H3-inner-asset-of-structured-after-split': 'H3',
+}
+
+
 def check_witnesses():
-    """name -> list of (oracle, detail) the oracle reports on the pinned histories (empty list = repaired)"""
+    """name -> {'expected', 'observed': [(oracle, class, detail)], 'user_data_changed', 'ok'}"""
     out = {}
     for name, case in witness_cases().items():
         r = execute(case)
-        out[name] = [(v['oracle'], classify(v), v['detail'][:200]) for v in r['violations']]
+        obs = [(v['oracle'], classify(v), v['detail'][:200]) for v in r['violations']]
+        exp = WITNESS_EXPECT.get(name)
+        ok = (not obs) if exp is None else (len(obs) > 0 and all(o[1] == exp for o in obs))
+        out[name] = {'expected': exp, 'observed': obs, 'ok': ok,
+                     'user_data_changed': [f['what'] for f in r['facts'] if f['kind'] == 'user_data_changed']}
     return out
 
 
@@ -1095,7 +1125,7 @@ if __name__ == '__main__':
     r = selftest(n, seed, verbose=True)
     print(json.dumps(r['counts']))
     for k, v in r['witnesses'].items():
-        print('witness', k, '->', v)
+        print('witness', k, '-> expected', v['expected'], 'ok' if v['ok'] else 'MISMATCH', v['observed'])
     print(json.dumps(r['features'], indent=0)[:3000])
     print(json.dumps(r['facts'], indent=0)[:3000])
     for e in r['harness_errors'][:3]:
